@@ -72,6 +72,19 @@ def objects(platform):
         ("Acl(no address groups)", acl(False, False)),
         ("Acl(entries before the first heading)", acl(False, True, True)),
         # an entry that lives inside a group of an ACL with a software version (its rendering depends on the version's name table)
+        # non-default settings: a copy is configured like its source (limit of non-contiguous bits, switches, indentation)
+        ("Wildcard(max_ncwb=20)", lambda: cisco_acl.Wildcard("10.0.0.0 0.0.1.3", platform=platform, max_ncwb=20)),
+        ("Address(max_ncwb=20)", lambda: cisco_acl.Address("10.0.0.0 0.0.1.3", platform=platform, max_ncwb=20)),
+        ("AddressAg(max_ncwb=20)", lambda: cisco_acl.AddressAg(gm[1], platform=platform, max_ncwb=20)),
+        ("AddrGroup(max_ncwb=20)", lambda: cisco_acl.AddrGroup("\n".join([ghead] + gm), platform=platform, max_ncwb=20, indent=" ")),
+        ("Ace(max_ncwb=20)", lambda: cisco_acl.Ace(f"permit tcp {host} any eq 80", platform=platform, max_ncwb=20, port_nr=True, protocol_nr=True)),
+        ("AceGroup(max_ncwb=20)", lambda: cisco_acl.AceGroup("\n".join(["remark = H1", f"permit tcp {host} any eq 80"]), platform=platform, max_ncwb=20, port_nr=True)),
+        ("Acl(max_ncwb=20)", lambda: cisco_acl.Acl("\n".join([head, f"permit tcp {host} any eq 80"]), platform=platform, max_ncwb=20, protocol_nr=True, indent=" ")),
+        # entry objects that carry other switch settings than the container they are handed to
+        ("AceGroup(entry objects with other switches)", lambda: cisco_acl.AceGroup(platform=platform, items=[cisco_acl.Ace("permit tcp any any eq 80", platform=platform, port_nr=True),
+                                                                                                                 cisco_acl.Ace("permit 6 any any", platform=platform, protocol_nr=True)])),
+        ("Acl(entry objects with other switches)", lambda: cisco_acl.Acl(name="A1", platform=platform, items=[cisco_acl.Ace("permit tcp any any eq 80", platform=platform, port_nr=True),
+                                                                                                             cisco_acl.Ace("permit 6 any any", platform=platform, protocol_nr=True)])),
         ("Ace(in a group of a versioned ACL)", lambda: cisco_acl.Acl("\n".join([head, "remark = H1", "permit tcp any any eq 135", "permit tcp any any eq 514"]),
                                                                       platform=platform, version="15.2(02)SY" if platform == "ios" else "9.3", group_by="= ").items[0].items[1]),
     ]
@@ -128,6 +141,12 @@ def check_copy(arg):
     if clean(cp.data()) != clean(src.data()):
         d1, d2 = clean(src.data()), clean(cp.data())
         bad("data", f"data differs in {[k for k in d1 if d1[k] != d2.get(k)]}")
+    settings = lambda o: {k: (str(getattr(o, k)) if k == "version" else getattr(o, k)) for k in ("platform", "version", "max_ncwb", "port_nr", "protocol_nr", "indent", "group_by", "type")
+                          if hasattr(o, k)}
+    if settings(cp) != settings(src):
+        s1, s2 = settings(src), settings(cp)
+        diff = {k: (s1[k], s2.get(k)) for k in s1 if s1[k] != s2.get(k)}
+        bad("settings:" + "+".join(sorted(diff)), f"the {how} is configured differently from its source: {diff}")
     shared = set(reachable_mutables(src)) & set(reachable_mutables(cp))
     if shared:
         objs = reachable_mutables(src)
@@ -280,7 +299,7 @@ def check_ids(arg):
 
 def main(chk):
     t0 = time.time()
-    cases = [(p, i, how) for p in ("ios", "nxos") for i in range(16) for how in ("copy", "data")]
+    cases = [(p, i, how) for p in ("ios", "nxos") for i in range(len(objects("ios"))) for how in ("copy", "data")]
     res = pmap(check_copy, cases)
     viol = 0
     for fails, _ in res:
@@ -288,7 +307,7 @@ def main(chk):
             viol += 1
             chk.finding(f["key"], f["what"], inputs=f["inputs"], cmd=f.get("cmd"), key=f["key"])
     chk.add_bounded("copy() / Class(**data()): equal text and data, no shared mutable state except notes, mutate-then-observe both ways", len(cases), len(cases),
-                    "13 object kinds (all exported classes; ACL flat and grouped, ACE with group members) x 2 platforms x {copy, data}", viol, time.time() - t0,
+                    f"{len(objects('ios'))} object kinds (all exported classes; ACL flat and grouped, ACE with group members; non-default limits, switches and indentation) x 2 platforms x {{copy, data}}", viol, time.time() - t0,
                     [list(cases[3])], exhaustive=True)
     t0 = time.time()
     cases = [(p, t) for p in ("ios", "nxos") for t in TRANSFORMS]
